@@ -268,6 +268,7 @@ def aggregate(pid, prop, tier, seed, rundir, nshards, status, t0, replay=False):
             "known_findings_seen": {fid: len(evs) for fid, evs in kf_seen.items()},
             "unlisted_violations": len(unlisted),
             "random_cases_planned": rnd_planned, "random_cases_run": rnd_done,
+            "code_constants": _codeconst_summary(repo, prop, summaries),
             "shards": nshards, "shard_status": status,
             "inconclusive_reasons": inconclusive,
             "anchors_not_executed": anchors_not_executed,
@@ -289,6 +290,19 @@ def aggregate(pid, prop, tier, seed, rundir, nshards, status, t0, replay=False):
         with open(os.path.join(edir, "%s.json" % pid), "w") as f:
             json.dump(ev, f, indent=1, sort_keys=False, allow_nan=False)
     return ev, lines, kf_lines, inconclusive, unlisted
+
+
+def _codeconst_summary(repo, prop, summaries):
+    """sizes taken from the numeric literals of the monitored source (rtmon/codeconst.py): what was harvested, what was run"""
+    try:
+        from . import codeconst
+        d = codeconst.summary(repo, cap=getattr(prop, "CONST_CAP", 300000))
+        for k in ("planned", "run", "no_size_drawn"):
+            d["cases_" + k] = sum((s.get("codeconst") or {}).get(k, 0) for s in summaries)
+        d["stopped_early"] = any((s.get("codeconst") or {}).get("stopped_early") for s in summaries)
+        return d
+    except Exception as e:      # evidence only
+        return {"error": repr(e)}
 
 
 def _numpy_version():
